@@ -122,3 +122,6 @@ W.lemma(
     props=["C15"],
     note="from_base_alphabet(to_base_alphabet(n, a), a) == n, by the two function contracts",
 )
+
+W.lemma("lemma_len_revi", vars=dict(s=SEQ(INT)), goal="len(revi(s)) == len(s)",
+        ih=[dict(at=dict(s="s[:-1]"), measure="len(s)", when="len(s) > 0")], hints=["unfold(revi(s))"], fuel=0, props=["C15", "C17"])
